@@ -69,9 +69,22 @@ pub fn compare_names(name1: &str, name2: &str) -> Ordering {
             // units, along with a list of weird exceptions and corner cases.  But
             // hopefully this is good enough for 99+% of the time.
             Ordering::Equal => {
+                // Compare UTF-16 code units rather than chars: a character
+                // outside the BMP is encoded with surrogates (0xD800-0xDFFF),
+                // which sort below the BMP characters from U+E000 up.
+                let mut buf1 = [0u16; 2];
+                let mut buf2 = [0u16; 2];
                 let n1 = name1.chars().map(cfb_uppercase_char);
                 let n2 = name2.chars().map(cfb_uppercase_char);
-                n1.cmp(n2)
+                for (c1, c2) in n1.zip(n2) {
+                    let units1 = c1.encode_utf16(&mut buf1);
+                    let units2 = c2.encode_utf16(&mut buf2);
+                    match (*units1).cmp(&*units2) {
+                        Ordering::Equal => {}
+                        other => return other,
+                    }
+                }
+                Ordering::Equal
             }
             other => other,
         }
